@@ -187,6 +187,40 @@ pub static WORLD: Mutex<Option<World>> = Mutex::new(None);
 pub struct SimExit(pub i32);
 pub struct SimCrash(pub &'static str);
 
+/// How a simulated process ends without returning from `main`.  Like the real thing, neither
+/// `process::exit` nor a crash runs destructors (a `BufWriter` that was not flushed loses its
+/// data): the executing thread reports the event and is parked forever instead of unwinding.
+pub enum Halt {
+    Exit(i32),
+    Crash(&'static str),
+}
+
+pub enum ExecMsg {
+    Done(::std::thread::Result<()>, Option<String>),
+    Halted(Halt),
+}
+
+thread_local! {
+    static HALT_TX: std::cell::RefCell<Option<std::sync::mpsc::Sender<ExecMsg>>> = const { std::cell::RefCell::new(None) };
+}
+
+pub fn halt(h: Halt) -> ! {
+    let tx = HALT_TX.with(|t| t.borrow().clone());
+    match tx {
+        Some(tx) => {
+            let _ = tx.send(ExecMsg::Halted(h));
+            loop {
+                ::std::thread::park();
+            }
+        }
+        // not on an execution thread (should not happen): fall back to unwinding
+        None => match h {
+            Halt::Exit(c) => ::std::panic::resume_unwind(Box::new(SimExit(c))),
+            Halt::Crash(w) => ::std::panic::resume_unwind(Box::new(SimCrash(w))),
+        },
+    }
+}
+
 fn splitmix(x: &mut u64) -> u64 {
     *x = x.wrapping_add(0x9E3779B97F4A7C15);
     let mut z = *x;
@@ -261,7 +295,7 @@ fn crash(why: &'static str) -> ! {
         w.logline(format!("crash {}", why));
         w.bump("crash_fired");
     });
-    ::std::panic::resume_unwind(Box::new(SimCrash(why)))
+    halt(Halt::Crash(why))
 }
 
 // ---------------------------------------------------------------------------
@@ -279,7 +313,7 @@ pub mod simstd {
     pub mod process {
         pub fn exit(code: i32) -> ! {
             crate::world::with_world(|w| w.logline(format!("exit {}", code)));
-            ::std::panic::resume_unwind(Box::new(crate::world::SimExit(code)))
+            crate::world::halt(crate::world::Halt::Exit(code))
         }
     }
 
@@ -867,7 +901,7 @@ pub mod simclap {
                         }
                         w.logline(format!("clap exit {}", code));
                     });
-                    ::std::panic::resume_unwind(Box::new(crate::world::SimExit(code)))
+                    crate::world::halt(crate::world::Halt::Exit(code))
                 }
             }
         }
@@ -893,7 +927,7 @@ pub mod simclap {
                 Ok(v) => v,
                 Err(e) => {
                     let code = e.exit_code();
-                    ::std::panic::resume_unwind(Box::new(crate::world::SimExit(code)))
+                    crate::world::halt(crate::world::Halt::Exit(code))
                 }
             }
         }
@@ -999,22 +1033,36 @@ pub fn execute(fs: &mut Fs, ex: &Exec, entry: fn()) -> Outcome {
     *WORLD.lock().unwrap_or_else(|e| e.into_inner()) = Some(world);
     clock_install(&ex.clock);
 
+    let (tx, rx) = std::sync::mpsc::channel::<ExecMsg>();
     let handle = std::thread::Builder::new()
         .name("sim-exec".into())
         .stack_size(16 << 20)
         .spawn(move || {
+            HALT_TX.with(|t| *t.borrow_mut() = Some(tx.clone()));
             let r = std::panic::catch_unwind(entry);
             let msg = PANIC_MSG.with(|p| p.borrow_mut().take());
-            (r, msg)
+            HALT_TX.with(|t| *t.borrow_mut() = None);
+            let _ = tx.send(ExecMsg::Done(r, msg));
         })
         .expect("spawn sim-exec");
-    let (res, msg) = handle.join().expect("sim-exec thread join");
+    let first = rx.recv().expect("sim-exec thread vanished");
+    let (res, msg): (Result<::std::thread::Result<()>, Halt>, Option<String>) = match first {
+        ExecMsg::Done(r, m) => {
+            handle.join().expect("sim-exec thread join");
+            (Ok(r), m)
+        }
+        // exit / crash: the thread stays parked forever (it is never joined), exactly as a
+        // process that is gone never runs another instruction
+        ExecMsg::Halted(h) => (Err(h), None),
+    };
 
     let clock = clock_uninstall();
     let mut world = WORLD.lock().unwrap_or_else(|e| e.into_inner()).take().expect("world vanished");
     let mut status = match res {
-        Ok(()) => Status::Exit(0),
-        Err(payload) => {
+        Err(Halt::Exit(c)) => Status::Exit(c),
+        Err(Halt::Crash(w)) => Status::Crash(w),
+        Ok(Ok(())) => Status::Exit(0),
+        Ok(Err(payload)) => {
             if let Some(SimExit(c)) = payload.downcast_ref::<SimExit>() {
                 Status::Exit(*c)
             } else if let Some(SimCrash(w)) = payload.downcast_ref::<SimCrash>() {
